@@ -106,6 +106,20 @@ func NameFamilies(thorough bool) []Family {
 		}
 		fams = append(fams, List("v4wrap", xs))
 	}
+	// a complete reversed name (or a prefix of one) followed by more labels and a root again: a decoder that looks
+	// for the first occurrence of the root, or only at the head of the name, takes the rest for granted
+	{
+		v6full := strings.Join(NibbleRun(32, 3), ".")
+		bases := []string{"4.3.2.1.in-addr.arpa", "4.3.2.1.IN-ADDR.ARPA", "3.2.1.in-addr.arpa", "10.in-addr.arpa", "in-addr.arpa", v6full + ".ip6.arpa", strings.Join(NibbleRun(31, 0), ".") + ".ip6.arpa", "8.b.d.0.1.0.0.2.ip6.arpa", "ip6.arpa", "4.3.2.1", v6full}
+		tails := []string{"in-addr.arpa", "ip6.arpa", "example.in-addr.arpa", "example.ip6.arpa", "in-addr.arpa.in-addr.arpa", "0.ip6.arpa", "1.in-addr.arpa", "arpa", "in-addr.arpa.", "IP6.ARPA.", "x", "in-addr.arpax.in-addr.arpa"}
+		var xs []string
+		for _, b := range bases {
+			for _, t := range tails {
+				xs = append(xs, b+"."+t, b+t, b+"x."+t)
+			}
+		}
+		fams = append(fams, List("doubleroot", xs))
+	}
 	// v6: nibble runs of every length with one distinguished label at every
 	// position, junk in front, every root spelling
 	maxRun := 35
@@ -178,6 +192,24 @@ func NameFamilies(thorough bool) []Family {
 		l := Rep(unit, 50)
 		for _, tail := range []string{".Example", ".10.In-Addr.Arpa", ".a.Ip6.ARPA", ".example"} {
 			lens = append(lens, l+"."+l+tail, l+"."+l+"."+l+tail)
+		}
+	}
+	// total lengths 250..256 reached by padding labels in front of reversed names (and ordinary ones)
+	for _, tail := range []string{"4.3.2.1.in-addr.arpa", "168.192.in-addr.arpa", "in-addr.arpa", "8.b.d.0.1.0.0.2.ip6.arpa", "ip6.arpa", "IN-ADDR.ARPA", "example.com", "_srv.example.com"} {
+		for total := 250; total <= 256; total++ {
+			pad := total - len(tail) - 1
+			// labels of 63, then the rest
+			var sb strings.Builder
+			for pad > 0 {
+				n := min(pad, 64) - 1 // label of n bytes + its dot
+				if n == 0 {
+					n, pad = 1, pad+1
+				}
+				sb.WriteString(Rep("x", n) + ".")
+				pad -= n + 1
+			}
+			name := sb.String() + tail
+			lens = append(lens, name, name+".")
 		}
 	}
 	fams = append(fams, List("lengths", lens))
